@@ -183,6 +183,46 @@ def declare(spec):
                  ("C17:ranks-advance-by-one", "self.increment == old(self.increment) + 1")],
         props=["C17"])
 
+    # ---- initialise: the base case of the tracker invariants (state of an empty system, a one-entry history)
+    SIM = {"simulation": "obj:Simulation"}
+    INIT_REQ = ["is_time(simulation.current_time) and is_fin(simulation.current_time)", "simulation.network.number_of_nodes == nnodes() and nnodes() >= 1"]
+    add(spec, "SystemPopulation.initialise", types=SIM, requires=INIT_REQ,
+        modifies=["simulation@self", "state@self", "history@self"], allocates=True,
+        ensures=[("C17:an-empty-system-is-tracked-as-empty", "self.state == 0 and ref_eq(self.simulation, simulation)"),
+                 ("C17:the-history-starts-with-one-entry-at-the-current-time",
+                  "len(self.history) == 1 and len(self.history[0]) == 2 and self.history[0][0] == simulation.current_time")],
+        props=["C17"])
+    add(spec, "NodePopulation.initialise", types=SIM, requires=INIT_REQ,
+        modifies=["simulation@self", "state@self", "history@self"], allocates=True,
+        ensures=[("C17:an-empty-system-is-tracked-as-empty",
+                  "len(self.state) == nnodes() and forall_in(self.state, lambda v: v == 0) and ref_eq(self.simulation, simulation)"),
+                 ("C17:the-history-starts-with-one-entry-at-the-current-time",
+                  "len(self.history) == 1 and len(self.history[0]) == 2 and self.history[0][0] == simulation.current_time")],
+        props=["C17"])
+    add(spec, "NaiveBlocking.initialise", types=SIM, requires=INIT_REQ,
+        modifies=["simulation@self", "state@self", "history@self"], allocates=True,
+        ensures=[("C17:an-empty-system-is-tracked-as-empty-with-one-row-of-its-own-per-node",
+                  "len(self.state) == nnodes() and forall_in(self.state, lambda row: len(row) == 2 and row[0] == 0 and row[1] == 0) and "
+                  "forall_int(lambda a: forall_int(lambda b: implies(0 <= a and a < b and b < len(self.state), not ref_eq(self.state[a], self.state[b]))))"),
+                 ("C17:the-history-starts-with-one-entry-at-the-current-time",
+                  "len(self.history) == 1 and len(self.history[0]) == 2 and self.history[0][0] == simulation.current_time")],
+        props=["C17"])
+
+    add(spec, "NodePopulationSubset.initialise", types=SIM, requires=INIT_REQ + ["len(self.observed_nodes) >= 0"],
+        modifies=["simulation@self", "state@self", "history@self"], allocates=True,
+        ensures=[("C17:an-empty-system-is-tracked-as-empty",
+                  "len(self.state) == len(self.observed_nodes) and forall_in(self.state, lambda v: v == 0)"),
+                 ("C17:the-history-starts-with-one-entry-at-the-current-time",
+                  "len(self.history) == 1 and len(self.history[0]) == 2 and self.history[0][0] == simulation.current_time")],
+        props=["C17"])
+    add(spec, "GroupedNodePopulation.initialise", types=SIM, requires=INIT_REQ + ["len(self.groups) >= 0"],
+        modifies=["simulation@self", "state@self", "history@self"], allocates=True,
+        ensures=[("C17:an-empty-system-is-tracked-as-empty",
+                  "len(self.state) == len(self.groups) and forall_in(self.state, lambda v: v == 0)"),
+                 ("C17:the-history-starts-with-one-entry-at-the-current-time",
+                  "len(self.history) == 1 and len(self.history[0]) == 2 and self.history[0][0] == simulation.current_time")],
+        props=["C17"])
+
     # ---- the ghost protocol of contracts/c_assumed.py is tracker-independent: every refinement performs the same ghost
     # statement and re-proves the class-level postcondition (so each built-in tracker is checked to refine it)
     for key, c in list(spec.contracts.items()):
